@@ -9,8 +9,10 @@ import GoWebdav.Props.C12
 import GoWebdav.Props.C15
 import GoWebdav.Props.C16
 import GoWebdav.Props.C17
+import GoWebdav.Props.C18
 import GoWebdav.Props.C19
 import GoWebdav.Generated.Tables
 import GoWebdav.Generated.Schema
 import GoWebdav.Generated.Facts
 import GoWebdav.Expected.Tables
+import GoWebdav.Expected.Concurrency
